@@ -25,6 +25,8 @@ import (
 	"sync/atomic"
 	"time"
 
+	"github.com/rs/zerolog"
+
 	"github.com/dadrus/heimdall/internal/config"
 	rconfig "github.com/dadrus/heimdall/internal/rules/config"
 	"github.com/dadrus/heimdall/internal/verif/vkit/app"
@@ -90,7 +92,10 @@ func runE2EHistory(seed int64, h int, pool map[string][]*poolKey, ca *caSet, dir
 		return res
 	}
 	cachedApp := rng.IntN(2) == 0 // in-memory cache (heimdall's default) or no cache at all
-	a, err := app.New(app.Options{Service: app.SvcDecision, Mutate: func(c *config.Configuration) {
+	// heimdall ends the process with logger.Fatal() when a listener cannot be created (fxlcm): make that visible
+	// (a port picked by the kit can be taken by another process in the meantime - a harness matter, retried by the parent)
+	lg := zerolog.New(fatalOnly{})
+	a, err := app.New(app.Options{Service: app.SvcDecision, Logger: &lg, Mutate: func(c *config.Configuration) {
 		c.SecretsReloadEnabled = true
 		if !cachedApp {
 			c.Cache.Type = "noop"
@@ -345,6 +350,17 @@ func runE2EHistory(seed int64, h int, pool map[string][]*poolKey, ca *caSet, dir
 		}
 	}
 	return res
+}
+
+// fatalOnly is a zerolog.LevelWriter that drops everything below fatal.
+type fatalOnly struct{}
+
+func (fatalOnly) Write(p []byte) (int, error) { return len(p), nil }
+func (fatalOnly) WriteLevel(l zerolog.Level, p []byte) (int, error) {
+	if l >= zerolog.FatalLevel && l != zerolog.NoLevel && l != zerolog.Disabled {
+		_, _ = os.Stderr.Write(append([]byte("HEIMDALL-FATAL: "), p...))
+	}
+	return len(p), nil
 }
 
 type written struct {
